@@ -185,3 +185,56 @@ package mux
 //@        wh.all["Vary"]["Access-Control-Request-Headers"]
 //@   ensures [C12] vary-only-request-names: forall x string :: wh.all["Vary"][x] && !old(wh.all)["Vary"][x] ==>
 //@        (x == "Origin" || x == "Access-Control-Request-Method" || x == "Access-Control-Request-Headers")
+
+// ---------------------------------------------------------------- router.go: serving
+
+// User-supplied functions (A4): they may panic; they do not touch the router's internal state.
+//@ fn mux.CallFunc
+//@   params fn, w, req, route, h
+//
+// A RecoverFunc is assumed not to panic itself (A4).
+//@ fn mux.RecoverFunc
+//@   params fn, w, v
+//@   nopanic
+//
+//@ fn headResponse.Write
+//@   requires resp != nil && resp.ResponseWriter != nil
+//@   nopanic
+//@   modifies mux.headResponse.size: resp
+//@   modifies http.Header.first: hdrOf(resp.ResponseWriter)
+//@   modifies http.Header.all: hdrOf(resp.ResponseWriter)
+//@   callsonly [C08] http.ResponseWriter.Header, http.Header.Set, strconv.Itoa
+//@   ensures [C08] count: result0 == len(bs) && result1 == nil
+//@   ensures [C08] size: resp.size == old(resp.size) + len(bs)
+//@   ensures [C08] content-length: hdrOf(resp.ResponseWriter).first["Content-Length"] == pure0("strconv.Itoa", resp.size)
+//
+//@ pred routerOK(r *Router) = r != nil && r.tree != nil && r.call != nil && corsValid(r.cors)
+//
+// The deferred closure of serveContext: recovers and hands the value to the RecoverFunc exactly once.
+//@ fn Router.serveContext$1
+//@   requires r != nil && deref(r) != nil && deref(r).recoverFunc != nil && w != nil
+//@   requires panicking() ==> panicval() != nil
+//@   ensures [C16] recovered: !panicking()
+//@   ensures [C16] once: old(panicking()) ==> ncalls("mux.RecoverFunc") == old(ncalls("mux.RecoverFunc")) + 1 &&
+//@        lastarg("mux.RecoverFunc", 2) == old(panicval()) && lastarg("mux.RecoverFunc", 0) == deref(r).recoverFunc && lastarg("mux.RecoverFunc", 1) == deref(w)
+//@   ensures [C16] none: !old(panicking()) ==> ncalls("mux.RecoverFunc") == old(ncalls("mux.RecoverFunc"))
+//
+//@ fn Router.serveContext
+//@   exceptional
+//@   requires routerOK(r) && req != nil && req.URL != nil && req.Header != nil && ctx != nil && w != nil && hdrOf(w) != req.Header
+//@   xensures [C16] escapes-only-without-recovery: r.recoverFunc == nil
+//@   xensures [C16] no-recover-call: ncalls("mux.RecoverFunc") == old(ncalls("mux.RecoverFunc"))
+//@   ensures [C16] recover-count: ncalls("mux.RecoverFunc") == old(ncalls("mux.RecoverFunc")) + (recovered() ? 1 : 0)
+//@   ensures [C16] recover-value: recovered() ==> r.recoverFunc != nil && lastarg("mux.RecoverFunc", 0) == r.recoverFunc && lastarg("mux.RecoverFunc", 2) == panicval()
+//@   atcall tree.Tree.Handler [C01,C05] path: arg0 == r.tree && arg1 == ctx && ctx.Path == req.URL.Path && arg2 == req.Method
+//@   atcall mux.CallFunc [C01] route: arg0 == r.call && arg2 == req && arg3 == box(ctx) && arg4 == callresult("tree.Tree.Handler", 1, 1) &&
+//@        ctx.node == callresult("tree.Tree.Handler", 1, 0)
+//@   atcall mux.CallFunc [C08] head-wrapper: (callresult("tree.Tree.Handler", 1, 2) && req.Method == "HEAD") ?
+//@        (typeis(arg1, "*headResponse") && unbox(arg1, "*headResponse").ResponseWriter == w && unbox(arg1, "*headResponse").size == 0) : arg1 == w
+//@   atcall mux.cors.handle [C11] only-when-served: callresult("tree.Tree.Handler", 1, 2) && arg0 == r.cors && arg1 == callresult("tree.Tree.Handler", 1, 0) && arg2 == hdrOf(w) && arg3 == req
+//
+//@ fn Router.ServeHTTP
+//@   requires routerOK(r) && req != nil && req.URL != nil && req.Header != nil && w != nil && hdrOf(w) != req.Header
+//@   atcall mux.Router.serveContext [C07,C01] fresh-context: arg0 == r && arg1 == w && arg2 == req && arg3 != nil && len(arg3.params) == 0
+//@   atcall types.Context.Destroy [C16] release: arg0 == callresult("types.NewContext", 1, 0)
+//@   ensures [C16] released: called("types.Context.Destroy", 1)
